@@ -17,3 +17,34 @@ UNITS = {
                  'CL_getNextCounter': [0], 'CL_cloneFrom': [0]},
   ),
 }
+
+QB = 'EventQueueBase<int, void (VArg), Pol>'
+QE = QB + '::QueuedEvent_'
+UNITS['queue'] = dict(
+    tu='inst/queue.cpp', filter=['EventQueueBase', 'BufferedItem', 'CounterGuard'], std='c++11',
+    root=('ClassTemplateSpecializationDecl', 'EventQueueBase'), root_q=QB,
+    extra_roots=[('ClassTemplateSpecializationDecl', 'BufferedItem', 'BufferedItem<' + QE + '>'),
+                 ('ClassTemplateSpecializationDecl', 'CounterGuard', 'CounterGuard<std::atomic<int>>')],
+    names={QB: 'Q', QE: 'QueuedEvent', QB + '::DisableQueueNotify': 'DisableQueueNotify', 'BufferedItem<' + QE + '>': 'Slot',
+           'CounterGuard<std::atomic<int>>': 'CounterGuard', 'VArg': 'VArg', 'UserPred': 'UserPred', 'UserPred0': 'UserPred0'},
+    value_records=['VArg', 'QueuedEvent', 'ArgsTuple'],
+    opaque_records=['VArg', 'UserPred', 'UserPred0'],
+    ghost_sig=[],
+    skip_functions=['getEvent', 'getArgument'],
+    env_calls={'getEvent': 'Pol_getEvent'},
+    tuple_ctor=['ArgsTuple'],
+    fn_tag_default='QueuedEvent',
+    type_rules=[
+      (r'^std::condition_variable$', 'condvar', 'CondVar'),
+      (r'^std::(__cxx11::)?list<', 'list', 'WList'),
+      (r'^std::_List_(const_)?iterator<', 'listit', 'WIt'),
+      (r'^std::tuple<VArg>$', 'record', 'ArgsTuple'),
+      (r'^std::array<char, ', 'rawbuf', 'QueuedEvent'),
+      (r'__alloc_traits<.*BufferedItem<.*>::value_type$', 'record', 'Slot'),
+      (r'^void \(\*\)\(void \*\)$|DtorFunc$', 'fnptr', 'DtorTag'),
+      (r'IndexSequence<', 'empty', 'int'),
+      (r'^std::chrono::duration<', 'opaque', 'Duration'),
+      (r'^std::unique_lock<', 'unique_lock', 'UniqueLock'),
+      (r'^EventDispatcherBase<', 'record', 'DispatcherBase'),
+    ],
+)
